@@ -574,6 +574,12 @@ def package_document_load(package_path, is_instance):
     #     which references should be rewritten
     component_ids = set()  # type: Set[FlowIRComponentId]
     for comp in new_components:
+        # VV: Components which instantiate documents ($import) are not components that a binding may reference;
+        #     WorkflowGraph.instantiate_dowhile_next_iteration() does not consider them as known components either
+        if '$import' in comp:
+            if 'name' not in comp:
+                raise ValueError("Illegal component definition is missing \"name\" key: %s" % comp)
+            continue
         try:
             component_ids.add((comp.get('stage', 0), comp['name']))
         except Exception:
